@@ -173,6 +173,9 @@ def run(ctx):
     ctx.check(not probs and n_first >= 3, "R14-first-insert", ii.key, ii, "first action is write_to_bucket(i1, f); success returns Ok; eviction only after both direct attempts failed",
               "; ".join(sorted(set(probs))[:2]) or "fewer than three placement paths")
 
+    # an evicted fingerprint must land in ITS alternate bucket, or it can no longer be found or deleted (C01's kick-loop rule)
+    from .C01 import kick_loop
+    kick_loop(ctx, ii)
     delete_rules(ctx, dele)
     helper_rules(ctx, wtb, hib, rfb, q_needed=True)
 
